@@ -20,7 +20,25 @@ SRC="${VERIF_SIMSRC:-$V/sim}" # a frozen copy of the simulator sources (seedswee
   flock 9
   # cooperative yield points in a scratch copy of storage.go (structural, see instr/main.go)
   mkdir -p "$ID"
-  "$B/instr" "$REPO/storage/pebble/storage.go" "$ID/storage.go.new" 2>/dev/null || { echo "build: instrumenting storage.go failed" >&2; exit 2; }
+  "$B/instr" -lockhook VerifYieldLock "$REPO/storage/pebble/storage.go" "$ID/storage.go.new" 2>/dev/null || { echo "build: instrumenting storage.go failed" >&2; exit 2; }
+  cat > "$ID/zz_verif_pebble_yieldlock.go.new" <<'GO'
+//go:build verif
+
+package pebble
+
+// Added by the verification build overlay only (not part of the repository).
+
+// VerifYieldLockHook is called before every mu.Lock() / mu.RLock() statement of the instrumented store,
+// with the address of the mutex.
+var VerifYieldLockHook func(site string, mu any)
+
+func VerifYieldLock(site string, mu any) {
+	if h := VerifYieldLockHook; h != nil {
+		h(site, mu)
+	}
+}
+GO
+  if ! cmp -s "$ID/zz_verif_pebble_yieldlock.go.new" "$ID/zz_verif_pebble_yieldlock.go"; then mv "$ID/zz_verif_pebble_yieldlock.go.new" "$ID/zz_verif_pebble_yieldlock.go"; else rm -f "$ID/zz_verif_pebble_yieldlock.go.new"; fi
   if ! cmp -s "$ID/storage.go.new" "$ID/storage.go"; then mv "$ID/storage.go.new" "$ID/storage.go"; else rm -f "$ID/storage.go.new"; fi
   # the same for the routing table (portalwire/table.go, table_reval.go): the hook is declared by a file
   # that only the overlay adds to the package
@@ -64,6 +82,7 @@ import json,sys
 B,REPO,ID=sys.argv[1:4]
 o=json.load(open(B+"/rtoverlay/overlay.json"))
 o["Replace"][REPO+"/storage/pebble/storage.go"]=ID+"/storage.go"
+o["Replace"][REPO+"/storage/pebble/zz_verif_yieldlock.go"]=ID+"/zz_verif_pebble_yieldlock.go"
 o["Replace"][REPO+"/portalwire/table.go"]=ID+"/table.go"
 o["Replace"][REPO+"/portalwire/table_reval.go"]=ID+"/table_reval.go"
 o["Replace"][REPO+"/portalwire/portal_protocol.go"]=ID+"/portal_protocol.go"
